@@ -25,6 +25,7 @@ import (
 	"github.com/sergeii/swat4master/internal/cleanup/cleaners/servercleaner"
 	"github.com/sergeii/swat4master/internal/core/entities/probe"
 	"github.com/sergeii/swat4master/internal/core/entities/server"
+	"github.com/sergeii/swat4master/internal/core/repositories"
 	"github.com/sergeii/swat4master/internal/core/usecases/addserver"
 	"github.com/sergeii/swat4master/internal/core/usecases/getserver"
 	"github.com/sergeii/swat4master/internal/core/usecases/listservers"
@@ -74,6 +75,20 @@ type World struct {
 	Procs []*Proc
 }
 
+// Repos is the triple of repository interfaces the use cases are built on.
+type Repos struct {
+	Servers   repositories.ServerRepository
+	Instances repositories.InstanceRepository
+	Probes    repositories.ProbeRepository
+}
+
+// ProcOpts: Hooks are attached to the redis client; Wrap (optional) decorates the repositories handed
+// to the use cases (the harness uses it to mark repository-call boundaries in the scheduler's trace).
+type ProcOpts struct {
+	Hooks []redis.Hook
+	Wrap  func(Repos) Repos
+}
+
 // Proc is one logical process: its own redis client (hence its own WATCH state) and everything built on it.
 type Proc struct {
 	W          *World
@@ -85,6 +100,7 @@ type Proc struct {
 	Servers    *servers.Repository
 	Instances  *instances.Repository
 	Probes     *probes.Repository
+	Repos      Repos // what the use cases see (possibly wrapped)
 	UC         container.Container
 	Dispatcher *reporter.Dispatcher
 	Browser    browser.Handler
@@ -124,6 +140,11 @@ func init() { gin.SetMode(gin.ReleaseMode) }
 
 // NewProc builds a logical process. hooks are attached to its redis client before anything uses it.
 func (w *World) NewProc(hooks ...redis.Hook) *Proc {
+	return w.NewProcOpts(ProcOpts{Hooks: hooks})
+}
+
+func (w *World) NewProcOpts(po ProcOpts) *Proc {
+	hooks := po.Hooks
 	client := redis.NewClient(&redis.Options{Addr: w.MR.Addr(), MaxRetries: -1, PoolSize: 8,
 		// in-memory transport straight into miniredis: no TCP connection per process per case
 		Dialer: func(context.Context, string, string) (net.Conn, error) {
@@ -147,16 +168,21 @@ func (w *World) NewProc(hooks ...redis.Hook) *Proc {
 	}
 	p.Instances = instances.New(client, w.Clock)
 	p.Probes = probes.New(client, w.Clock)
+	rp := Repos{Servers: p.Servers, Instances: p.Instances, Probes: p.Probes}
+	if po.Wrap != nil {
+		rp = po.Wrap(rp)
+	}
+	p.Repos = rp
 	p.UC = container.NewContainer(
-		addserver.New(p.Servers, p.Probes, addserver.UseCaseOptions{MaxProbeRetries: w.Opts.RevivalRetries}, p.Metrics, p.Logger),
-		getserver.New(p.Servers),
-		listservers.New(p.Servers, w.Clock),
-		probeserver.New(p.Servers, p.Probes, p.Metrics, w.Clock, p.Logger),
-		refreshservers.New(p.Servers, p.Probes, refreshservers.UseCaseOptions{MaxProbeRetries: w.Opts.RefreshRetries}, p.Metrics, p.Logger),
-		removeserver.New(p.Servers, p.Instances, p.Logger),
-		renewserver.New(p.Instances, p.Servers, w.Clock),
-		reportserver.New(p.Servers, p.Instances, p.Probes, reportserver.UseCaseOptions{MaxProbeRetries: w.Opts.RevivalRetries}, p.Validate, p.Metrics, w.Clock, p.Logger),
-		reviveservers.New(p.Servers, p.Probes, reviveservers.UseCaseOptions{MaxProbeRetries: w.Opts.RevivalRetries}, p.Metrics, p.Logger),
+		addserver.New(rp.Servers, rp.Probes, addserver.UseCaseOptions{MaxProbeRetries: w.Opts.RevivalRetries}, p.Metrics, p.Logger),
+		getserver.New(rp.Servers),
+		listservers.New(rp.Servers, w.Clock),
+		probeserver.New(rp.Servers, rp.Probes, p.Metrics, w.Clock, p.Logger),
+		refreshservers.New(rp.Servers, rp.Probes, refreshservers.UseCaseOptions{MaxProbeRetries: w.Opts.RefreshRetries}, p.Metrics, p.Logger),
+		removeserver.New(rp.Servers, rp.Instances, p.Logger),
+		renewserver.New(rp.Instances, rp.Servers, w.Clock),
+		reportserver.New(rp.Servers, rp.Instances, rp.Probes, reportserver.UseCaseOptions{MaxProbeRetries: w.Opts.RevivalRetries}, p.Validate, p.Metrics, w.Clock, p.Logger),
+		reviveservers.New(rp.Servers, rp.Probes, reviveservers.UseCaseOptions{MaxProbeRetries: w.Opts.RevivalRetries}, p.Metrics, p.Logger),
 	)
 	p.Dispatcher = reporter.NewDispatcher(p.Metrics, w.Clock, p.Logger)
 	must2(available.New(p.Dispatcher))
